@@ -15,7 +15,8 @@
    C05) was repaired too (fix c3f2e26).
    Still false on the code as it stands (found by this check's run-time judge, kept reported; the
    producers are not modelled here, their sites are Unjustified in the table): GCXS getitem with
-   None and an integer (malformed 2-d GCXS without indptr) and einsum storing cancelled sums.  The
+   None and an integer (malformed 2-d GCXS without indptr).  einsum storing cancelled sums (found by
+   this check) was repaired by fix a5059be (prune=True at the _einsum_single site).  The
    csc @ ndarray sparse-returning kernel (unsorted rows, miscounted indptr; found by this check)
    was repaired by fix 03cd171. *)
 From Coq Require Import String ZArith List Bool Sorting.Sorted.
@@ -124,6 +125,21 @@ Theorem prune_by_ieee_neq_not_pruned :
     forallb (fun v => negb (v =? fill)) (prune_by (fun v => ieee_neq nan v fill) data) = false.
 Proof. exact prune_by_ieee_neq_not_pruned_proof. Qed.
 Print Assumptions prune_by_ieee_neq_not_pruned.
+
+(* the key the constructor sorts and deduplicates by is np.ravel_multi_index(coords, shape) — intp, signed —
+   for every shape but () (GENERATED return paths of linear_loc / COO.linear_loc): Model/Ctor.v's `key` = ravel.
+   Returning the coordinate array itself (narrow or unsigned dtype) no longer matches *)
+Theorem linear_loc_is_ravel_multi_index :
+  list_eqb3 linear_loc_returns linear_loc_expected = true.
+Proof. vm_compute. reflexivity. Qed.
+Print Assumptions linear_loc_is_ravel_multi_index.
+
+(* why the dtype matters: on an unsigned key the "already sorted" test `(np.diff(linear) >= 0).all()` is vacuous *)
+Theorem unsigned_key_test_is_vacuous :
+  (forall (w : Z) (l : list Z), 0 <= w -> nondec_wrapped w l = true)
+  /\ exists l : list Z, nondec_wrapped 8 l = true /\ nondec l = false.
+Proof. exact (conj nondec_wrapped_always_proof unsigned_key_test_accepts_unsorted_proof). Qed.
+Print Assumptions unsigned_key_test_is_vacuous.
 
 (* an absent flag promises nothing: the defaults of COO.__init__ are sorted=False,
    has_duplicates=True (prune=False), of GCXS.__init__ prune=False *)
